@@ -245,6 +245,24 @@ def x86_vocab():
     for mn in ("vxorpd", "vxorps"):
         V.append(_x86(mn, [("%xmm4", "r"), ("%xmm5", "r"), ("%xmm6", "w")]))
         V.append(_x86(mn, [("%ymm4", "r"), ("%ymm5", "r"), ("%ymm6", "w")]))
+    # dependency-breaking idioms (all operands equal: write without reading) and their
+    # look-alikes with only some operands equal (ordinary reads)
+    for suf, r in (("q", "%rcx"), ("l", "%ecx")):
+        for mn in ("xor", "sub"):
+            x = _x86(mn + suf, [(r, "r"), (r, "rw")], fw=zc)
+            x.reads = set()
+            V.append(x)
+    for mn in ("pxor", "xorps", "xorpd"):
+        x = _x86(mn, [("%xmm5", "r"), ("%xmm5", "rw")])
+        x.reads = set()
+        V.append(x)
+    for mn in ("vxorps", "vxorpd"):
+        x = _x86(mn, [("%ymm5", "r"), ("%ymm5", "r"), ("%ymm5", "w")])
+        x.reads = set()
+        V.append(x)
+        V.append(_x86(mn, [("%ymm4", "r"), ("%ymm5", "r"), ("%ymm4", "w")]))
+        V.append(_x86(mn, [("%ymm4", "r"), ("%ymm5", "r"), ("%ymm5", "w")]))
+        V.append(_x86(mn, [("%xmm4", "r"), ("%xmm5", "r"), ("%xmm4", "w")]))
     V.append(_x86("vzeroall", [], implicit_w=["ymm4", "ymm0", "ymm15"]))
     x = _x86("vzeroupper", [], implicit_w=["ymm4", "ymm0", "ymm15"])
     x.maybe = set(x.writes)   # the lower halves are kept: whether that is a read is left open
@@ -437,6 +455,26 @@ FLAG_PROBES = {
 }
 
 
+# Vocabulary forms that have no ISA entry on the verified tree: the statement assigns them the
+# default rule although their architectural roles differ.  Every *other* vocabulary instruction is
+# held to its architectural roles even if the database stops deciding it (an entry narrowed or
+# lost), because its semantics are shipped today.
+DEFAULT_RULE_FORMS = {
+    ("x86", "sbb", ("imm", "reg")), ("x86", "neg", ("reg",)), ("x86", "sar", ("imm", "reg")),
+    ("x86", "sal", ("imm", "reg")), ("aarch64", "uabal", ("reg", "reg", "reg")),
+    ("aarch64", "uabal2", ("reg", "reg", "reg")),
+}
+
+
+def form_sig(isa, ins):
+    sig = []
+    for o in ins.operands:
+        n = type(o).__name__
+        sig.append({"RegisterOperand": "reg", "MemoryOperand": "mem",
+                    "ImmediateOperand": "imm"}.get(n, n))
+    return (isa, stem(isa, ins.mnemonic), tuple(sig))
+
+
 def db_status(sem, ins):
     """'db' if the ISA database decides the roles of this instruction (directly, through the
     suffix fall-back or through the register form of a memory instruction), else 'default'"""
@@ -502,9 +540,12 @@ def audit_case(item):
         status, out["entry"] = db_status(sem, kernel[0])
         out["status"] = status
         reads, writes, maybe = x.reads, x.writes, x.maybe
-        if status == "default":
+        pinned_default = status == "default" and form_sig(isa, kernel[0]) in DEFAULT_RULE_FORMS
+        if status == "default" and (pinned_default or x.default == (x.reads | x.maybe, x.writes)
+                                    or x.default == (x.reads, x.writes)):
             reads, writes = x.default
             maybe = set()
+            status = "default-rule"
         resources = sorted(x.regs | reads | writes | {UNRELATED[isa]}, key=repr)
         for c in resources:
             p, q = probes(isa, c)
@@ -537,7 +578,7 @@ def audit_case(item):
                 out["bad"].append(("flag", "off", "spurious", f,
                                    "%s [%s]: edges %r in %r although flag dependencies were not "
                                    "requested" % (status, arch, sorted(got), [p, x.text, q])))
-            if status == "default":
+            if status == "default-rule":
                 continue   # the default rule knows no flags
             if f in x.fu:
                 out["unspec"] += 2
